@@ -124,7 +124,8 @@ def gen_case(seed, tier):
             op['how'] = rng.choice(('open', 'pickle'))
             op['proc'] = rng.randrange(nproc)
             if op['how'] == 'open' and rng.random() < 0.3:
-                op['new_limit'] = rng.choice((2 ** 20, 2 ** 24, 3 * 2 ** 20))      # a restart with another configured limit
+                # a restart with another configured limit (far above anything these histories store: size pressure is C09's)
+                op['new_limit'] = rng.choice((2 ** 28, 2 ** 29, 3 * 2 ** 28))
     if rng.random() < 0.4:
         # a setting is changed through one handle (reset(key, value): every shard, and stored) and the other handles reload
         # it the documented way (reset(key)): afterwards every shard of every handle goes by the new value
